@@ -6,7 +6,7 @@ k=json.load(open('/verif/known_findings.json'))
 for p in props.split(','):
     e={"finding":finding,"property":p,"rule":rule,"key":key,"status":status,"what_fails":what if status=="known" else f"fixed: property={p} {commit} {what}"}
     if commit!='-': e["commit"]=commit
-    k['findings']=[x for x in k['findings'] if not (x['property']==p and x['rule']==rule and x['key']==key)]
+    k['findings']=[x for x in k['findings'] if not (x['property']==p and x['rule']==rule and x['key']==key and x.get('finding')==finding)]
     k['findings'].append(e)
 json.dump(k,open('/verif/known_findings.json','w'),indent=1,ensure_ascii=False)
 print("ok",len(k['findings']))
